@@ -22,6 +22,32 @@ CHECKS = {
                   "code by running real CryptoCore pairs and the extracted model on the same histories each run; the history-only reference "
                   "evaluated on the real accept/reject outcomes is the failing-input oracle. Node-level housekeeping tick is covered by the C08/C10 node model.",
              technique="Coq proof (invariant by induction over histories) + executed model/implementation correspondence", ref="4 (C03)"),
+ "C11": dict(text="Theorems C11_* (Properties/C11.v): Range::matches equals the bit-by-bit prefix specification for every byte string and every "
+                  "prefix 0..255 (byte-level facts by an in-kernel sweep of all 65536 byte pairs lifted with forallb_forall, the rest by induction); an "
+                  "uncached lookup returns a claim in the table that matches with maximal prefix length and None iff none matches; the cached decision "
+                  "expires no later than now+switch timeout and no later than its claim; the sweep and peer removal leave nothing stale. Tied to the "
+                  "code by the executed correspondence on ClaimTable operation sequences; failing-input oracles: bit-by-bit matcher and a history-based "
+                  "table reference. The node-level clause (router drops and counts, switch/hub flood) is part of the node model (C10).",
+             technique="Coq proof (list induction + finite in-kernel sweep) + executed model/implementation correspondence", ref="4 (C11)"),
+ "C12": dict(text="Theorems C12_* (Properties/C12.v): after set_claims the ranges attributed to the peer are exactly the announced ones with fresh expiry, "
+                  "other peers' live entries untouched, cached decisions of the peer gone if anything was dropped; unrefreshed claims vanish at the "
+                  "first sweep after expiry; remove_claims leaves no claim or cached/learned address for the peer - for every table state, list and "
+                  "time > 0 (induction over the claim vector, including swap_remove). Tied to the code by the executed correspondence; oracle: "
+                  "history-based reference after every step. Node-level removal paths are covered by the node model.",
+             technique="Coq proof (invariant of the set_claims loop by induction) + executed model/implementation correspondence", ref="4 (C12)"),
+ "C17": dict(text="Theorems C17_* (Properties/C17.v), with SHA-512 modelled bit-exact in Gallina (no hash oracle): base-62 text round trip to the "
+                  "leading-zero-stripped string (canonical numerals, uniqueness), masking involution for every length incl. counter wrap, "
+                  "encrypt/decrypt of the body, full peer-list round trip for every key, hour, list and admissible age limit (premise: not all of "
+                  "the first six masked bytes are zero, probability 2^-48), scanner finds an embedded beacon where its two find calls hit, sanitised "
+                  "text always decodes and all slices are in range (no panic site). 'Different password is ignored' is exercised, not proved. Tied to "
+                  "the code by the executed correspondence (real BeaconSerializer vs extracted model incl. SHA-512).",
+             technique="Coq proof (numeral-system lemmas, list induction, bit-exact SHA-512 model) + executed correspondence", ref="4 (C17)"),
+ "C18": dict(text="Theorems C18_* (Properties/C18.v): every 32-byte key printed with to_base62 is parsed back to the same bytes (leading zeros "
+                  "included), parsing is total and always yields 32 bytes; with PBKDF2/Ed25519 as oracle functions the password-only configuration "
+                  "selects (kdf pw, pk_of (kdf pw)) trusting exactly its own key, the printed pair is accepted as private/public/trusted key, and two "
+                  "password-only nodes trust each other iff the derived public keys are equal. Determinism of ring's PBKDF2/Ed25519 itself is exercised "
+                  "(derive twice, two instances), not proved.",
+             technique="Coq proof (base-62 canonical-numeral argument) + executed correspondence; determinism of ring by run-twice", ref="4 (C18)"),
 }
 NA_REASON = "check not built yet in this revision of /verif (planned, see DESIGN.md section 4); not claimed"
 def main():
